@@ -6,11 +6,22 @@ open RawPanelVerif.C08
 #print axioms delivered_prefix
 #print axioms quiescent_complete
 #print axioms quiescent_complete_any
+#print axioms runL_arrivals_eq_feed
+#print axioms runL_deliveries_eq_parse
 #print axioms idle_gap_harmless
+#print axioms entry_clears_probe_deadline
+#print axioms resets_moved_counterexample
+#print axioms loop_top_reset_needed_counterexample
 #print axioms expire_only_outside_contract
 #print axioms in_contract_never_expires
 #print axioms idle_wait_does_not_stop
+#print axioms runT_in_contract_complete
+#print axioms slow_trickle_dropped
+#print axioms lines_model
 #print axioms lines_eq_reference
+#print axioms nbsp_line_counterexample
 #print axioms lines_segmentation_independent
 #print axioms unterminated_line_not_delivered
 #print axioms crlf_eq_lf
+#print axioms ascii_idle_gap_harmless
+#print axioms ascii_reset_needed_counterexample
